@@ -136,6 +136,33 @@ type sink struct {
 
 // isLineBufLoad: v is `*buf` for a line buffer of fn.
 func isLineBufLoad(fn *ssa.Function, bufs map[ssa.Value]bool, v ssa.Value) bool {
+	return isLineBufVal(fn, bufs, v, map[ssa.Value]bool{})
+}
+
+// isLineBufVal: v is the line's contents — `*buf`, or a local copy extended by appends (`dst := *buf; dst = append(dst, …)`).
+func isLineBufVal(fn *ssa.Function, bufs map[ssa.Value]bool, v ssa.Value, seen map[ssa.Value]bool) bool {
+	if v == nil || seen[v] {
+		return false
+	}
+	seen[v] = true
+	switch x := v.(type) {
+	case *ssa.Phi:
+		for _, e := range x.Edges {
+			if isLineBufVal(fn, bufs, e, seen) {
+				return true
+			}
+		}
+		return false
+	case *ssa.Call:
+		if n := sx.CalleeName(x); (n == "builtin.append" || appendStyle(n)) && len(x.Call.Args) > 0 {
+			for _, a := range x.Call.Args {
+				if _, isSlice := a.Type().Underlying().(*types.Slice); isSlice && isLineBufVal(fn, bufs, a, seen) {
+					return n == "builtin.append" && a == x.Call.Args[0] || n != "builtin.append"
+				}
+			}
+		}
+		return false
+	}
 	u, ok := v.(*ssa.UnOp)
 	if !ok || u.Op != token.MUL {
 		return false
@@ -257,9 +284,20 @@ func classifySinks(p *core.Prog, h *handlerInfo, sanitizer *ssa.Function) ([]sin
 			switch {
 			case name == "builtin.append" && len(args) == 2 && isLineBufLoad(fn, bufs[fn], args[0]):
 				src := args[1]
+				// bytes.TrimSuffix(x, "\n") / TrimRight(x, "\n"): x without its trailing newline
+				trimmed := false
+				if tc, ok := src.(*ssa.Call); ok && (sx.CalleeName(tc) == "bytes.TrimSuffix" || sx.CalleeName(tc) == "bytes.TrimRight") && len(tc.Call.Args) == 2 {
+					if cb, ok := constBytesOf(tc.Call.Args[1]); ok && string(cb) == "\n" {
+						src, trimmed = tc.Call.Args[0], true
+					}
+				}
 				org := sx.Origins(src)
 				if b, ok := constBytesOf(src); ok {
 					s.Class, s.Bytes = "const", b
+				} else if b, ok := paramConst(p, fn, src); ok {
+					// a string parameter that every call site outside the colour-only paths passes the same constant for
+					s.Class, s.Bytes = "const", b
+					s.Detail = "parameter " + sx.ValPath(src) + ": constant at every call site that is not colour-only"
 				} else if h.Pre != nil && org["field:"+h.Name+"."+h.Pre.Name()] && len(org) == 1 {
 					s.Class = "preformatted"
 				} else if g := onlyGlobal(org); g != "" {
@@ -268,7 +306,7 @@ func classifySinks(p *core.Prog, h *handlerInfo, sanitizer *ssa.Function) ([]sin
 					s.Class = "closed:duration"
 				} else if usesJSONEnc && org["call:(*bytes.Buffer).Bytes"] && len(org) == 1 {
 					s.Class = "json-value"
-					if sl, ok := src.(*ssa.Slice); !ok || sl.High == nil {
+					if sl, ok := src.(*ssa.Slice); (!ok || sl.High == nil) && !trimmed {
 						s.Class, s.Detail = "raw", "encoder output appended including its trailing newline"
 					}
 				} else if fn == sanitizer {
@@ -304,6 +342,49 @@ func classifySinks(p *core.Prog, h *handlerInfo, sanitizer *ssa.Function) ([]sin
 		})
 	}
 	return out, bufs
+}
+
+// paramConst: src is a string/[]byte parameter of fn, and every static call site of fn that is not on a colour-only
+// path of its caller passes the same constant for it (and there is at least one such site).
+func paramConst(p *core.Prog, fn *ssa.Function, src ssa.Value) ([]byte, bool) {
+	prm, ok := sx.Unspill(src).(*ssa.Parameter)
+	if !ok || prm.Parent() != fn {
+		return nil, false
+	}
+	idx := -1
+	for i, q := range fn.Params {
+		if q == prm {
+			idx = i
+		}
+	}
+	if idx < 0 {
+		return nil, false
+	}
+	var val []byte
+	n := 0
+	for _, cs := range staticCalls(p).callers[fn] {
+		if _, isCall := cs.Instr.(*ssa.Call); !isCall {
+			return nil, false
+		}
+		ce := colourEdges(cs.Caller)
+		if len(ce) > 0 && sx.MustPass(cs.Caller, nil, cs.Instr.(ssa.Instruction), sx.Cut{Edges: ce}) {
+			continue // colour-only call site: the colour option is fixed off for the structural rules
+		}
+		args := sx.Args(cs.Instr)
+		if idx >= len(args) {
+			return nil, false
+		}
+		b, isC := constBytesOf(args[idx])
+		if !isC {
+			return nil, false
+		}
+		if n > 0 && string(b) != string(val) {
+			return nil, false
+		}
+		val = b
+		n++
+	}
+	return val, n > 0
 }
 
 func lineBufArg(fn *ssa.Function, bufs map[ssa.Value]bool, c *ssa.Call) bool {
